@@ -329,6 +329,11 @@ fn removable(ty: &Ty, e: &Edit) -> bool {
 /// applied to the depth-1 nodes created by the reduced alphabet. thorough: depth 2 = reduced
 /// alphabet applied to every depth-1 node, depth 3 = reduced^3.
 pub fn hist_tree(thorough: bool) -> Vec<HistNode> {
+    static Q: std::sync::OnceLock<Vec<HistNode>> = std::sync::OnceLock::new();
+    static T: std::sync::OnceLock<Vec<HistNode>> = std::sync::OnceLock::new();
+    if thorough { T.get_or_init(|| compute_hist_tree(true)).clone() } else { Q.get_or_init(|| compute_hist_tree(false)).clone() }
+}
+fn compute_hist_tree(thorough: bool) -> Vec<HistNode> {
     let mut nodes: Vec<HistNode> = vec![];
     let mut seen = std::collections::HashSet::new();
     for (bi, b) in bases().into_iter().enumerate() {
